@@ -244,6 +244,108 @@ def run(ctx):
     check_private_counts(ctx, fi, G, counts, sites, group_sites, be)
     check_model_unchanged(ctx, fi)
     check_conditioning(ctx, fi, be)
+    check_order_complete(ctx)
+
+
+def check_order_complete(ctx):
+    """synthetic_data generates one column per entry of self.elimination_order: the order must list every attribute of the domain.  The
+    greedy search moves exactly one attribute from its work list to the order per round, for as many rounds as there are attributes; an
+    early exit is complete only if it first moves the WHOLE remaining work list."""
+    JT = 'src/mbi/junction_tree.py'
+    fi = ctx.repo.nfunc(JT, 'JunctionTree._greedy_order')
+    ctx.analysed(fi)
+    loops = []
+    for lp in [s_ for s_ in fi.body if isinstance(s_, (ast.For, ast.While))]:
+        app = [s_ for s_ in lp.body if isinstance(s_, ast.Expr) and isinstance(s_.value, ast.Call) and isinstance(s_.value.func, ast.Attribute)
+               and s_.value.func.attr == 'append' and isinstance(s_.value.func.value, ast.Name) and len(s_.value.args) == 1]
+        rem = [s_ for s_ in lp.body if isinstance(s_, ast.Expr) and isinstance(s_.value, ast.Call) and isinstance(s_.value.func, ast.Attribute)
+               and s_.value.func.attr == 'remove' and isinstance(s_.value.func.value, ast.Name) and len(s_.value.args) == 1]
+        for a_ in app:
+            for r_ in rem:
+                if U(a_.value.args[0]) == U(r_.value.args[0]):
+                    loops.append((lp, a_.value.func.value.id, r_.value.func.value.id))
+    if len(loops) != 1:
+        raise AnalysisError('_greedy_order: the round loop (order.append(a); unmarked.remove(a)) was not found')
+    lp, ORDER, WORK = loops[0]
+    inits = {s_.targets[0].id: s_.value for s_ in fi.body if isinstance(s_, ast.Assign) and len(s_.targets) == 1 and isinstance(s_.targets[0], ast.Name)}
+    for s_ in fi.body:
+        if isinstance(s_, ast.Assign) and len(s_.targets) == 1 and isinstance(s_.targets[0], ast.Tuple) and isinstance(s_.value, ast.Tuple):
+            for t_, v_ in zip(s_.targets[0].elts, s_.value.elts):
+                if isinstance(t_, ast.Name):
+                    inits[t_.id] = v_
+    dom = [k for k, v in inits.items() if T(v) == 'self.domain'] + ['self.domain']
+    work0 = T(inits[WORK]) if WORK in inits else ''
+    FULL = ['list(%s.attrs)' % d for d in dom] + ['list(%s)' % d for d in dom] + ['[*%s.attrs]' % d for d in dom]
+    full = work0 in FULL
+    if not full:
+        # a copy of a list the constructor keeps: `self.X = list(domain.attrs)` stored once, in __init__
+        import re
+        m_ = re.fullmatch(r'(?:list|tuple)\(self\.(\w+)\)|self\.(\w+)\[:\]|self\.(\w+)\.copy\(\)', work0)
+        init_ = ctx.repo.nfunc(JT, 'JunctionTree.__init__')
+        if m_:
+            attr = next(g for g in m_.groups() if g)
+            stores = [(f_, a_) for q_, f_ in fi.module.funcs.items() if f_.cls is fi.cls for a_ in ast.walk(f_.node)
+                      if isinstance(a_, (ast.Assign, ast.AugAssign)) and any(T(t_) == 'self.' + attr for t_ in (a_.targets if isinstance(a_, ast.Assign) else [a_.target]))]
+            dparam = [p_ for p_ in init_.params if any(isinstance(a_, ast.Assign) and T(a_.targets[0]) == 'self.domain' and T(a_.value) == p_
+                                                       for a_ in init_.body)]
+            if len(stores) == 1 and stores[0][0].name == '__init__' and isinstance(stores[0][1], ast.Assign):
+                v_ = T(stores[0][1].value)
+                full = v_ in FULL + ['list(%s.attrs)' % d for d in dparam] + ['list(%s)' % d for d in dparam]
+        if not full and re.fullmatch(r'self\.\w+', work0) and not work0.startswith('self.domain'):
+            ctx.ob('order-complete', fi, lp, False,
+                   'the work list `%s` IS the list `%s` stored on the object (no copy): the rounds remove its entries, so the first run of the search '
+                   'empties it and every later run on the same object starts with no attributes and returns an empty order' % (WORK, work0),
+                   construct='work list of the greedy search')
+            return
+        if not full:
+            raise AnalysisError('_greedy_order: the work list starts as `%s`, which is in no recognised form' % work0)
+    if isinstance(lp, ast.For):
+        trips = T(lp.iter) in ['range(len(%s))' % d for d in dom] + ['range(len(%s.attrs))' % d for d in dom] + ['range(len(%s))' % WORK]
+    else:
+        trips = T(lp.test) in (WORK, 'len(%s)>0' % WORK, 'len(%s)!=0' % WORK, 'len(%s)' % WORK, '0<len(%s)' % WORK)
+    ctx.ob('order-complete', fi, lp, full and trips,
+           'the greedy search starts from all attributes of the domain (`%s = %s`) and runs one round per attribute (`%s`), each round moving one '
+           'attribute to the order' % (WORK, work0, T(lp.iter) if isinstance(lp, ast.For) else T(lp.test)), construct='rounds of the greedy search')
+
+    def exits(block, guards):
+        for i, s_ in enumerate(block):
+            if isinstance(s_, (ast.Break, ast.Return)):
+                moved = None
+                for p_ in block[:i]:
+                    if isinstance(p_, ast.Expr) and isinstance(p_.value, ast.Call) and isinstance(p_.value.func, ast.Attribute) \
+                            and p_.value.func.attr == 'extend' and T(p_.value.func.value) == ORDER and len(p_.value.args) == 1:
+                        moved = p_.value.args[0]
+                    if isinstance(p_, ast.AugAssign) and isinstance(p_.op, ast.Add) and T(p_.target) == ORDER:
+                        moved = p_.value
+                empty = any(T(g_) in ('not' + WORK, 'len(%s)==0' % WORK, 'not%s' % WORK) for g_ in guards)
+                if moved is not None:
+                    m_ = moved
+                    while isinstance(m_, ast.Call) and T(m_.func) in ('list', 'tuple') and len(m_.args) == 1:
+                        m_ = m_.args[0]
+                    # a local that is a plain filter of the work list
+                    if isinstance(m_, ast.Name) and m_.id != WORK:
+                        defs_ = [x.value for x in block[:i] if isinstance(x, ast.Assign) and len(x.targets) == 1 and T(x.targets[0]) == m_.id]
+                        if len(defs_) == 1:
+                            m_ = defs_[0]
+                    whole = isinstance(m_, ast.Name) and m_.id == WORK
+                    part = isinstance(m_, (ast.ListComp, ast.GeneratorExp)) and T(m_.generators[0].iter) == WORK and bool(m_.generators[0].ifs)
+                    if not whole and not part:
+                        raise AnalysisError('_greedy_order: early exit after moving `%s`, which is in no recognised form' % U(moved)[:60])
+                    ctx.ob('order-complete', fi, s_, whole,
+                           'the search stops early after moving `%s` to the order: %s' % (U(moved)[:70], 'the whole remaining work list' if whole else
+                           'only the attributes that pass the filter - the others are in no elimination order, and synthetic_data never generates their columns'),
+                           construct='early exit of the greedy search')
+                else:
+                    ctx.ob('order-complete', fi, s_, empty,
+                           'the search stops early %s' % ('when no attribute is left' if empty else 'although attributes may be left in `%s`: they are in no '
+                                                         'elimination order, and synthetic_data never generates their columns' % WORK),
+                           construct='early exit of the greedy search')
+            elif isinstance(s_, ast.If):
+                exits(s_.body, guards + [s_.test])
+                exits(s_.orelse, guards)
+            elif isinstance(s_, (ast.With, ast.Try)):
+                exits(s_.body, guards)
+    exits(lp.body, [])
 
 
 def all_empty_before(axes, pc):
